@@ -74,7 +74,14 @@ impl Effect for Distortion {
 					output.right / (1.0 + output.right.abs()),
 				),
 			};
-			output /= drive;
+			// a drive of zero (-60 dB or less) scales the signal to silence, and
+			// dividing by it to restore the level would give NaN. nothing is
+			// clipped at such a low drive, so the wet signal is just the input
+			if drive > 0.0 {
+				output /= drive;
+			} else {
+				output = *frame;
+			}
 
 			*frame = output * mix.sqrt() + *frame * (1.0 - mix).sqrt()
 		}
